@@ -844,6 +844,8 @@ def parse_block(lines, pos, scope, enders):
                         break
             if p.peek()[0] != 'eof':
                 raise SpecError('trailing tokens in %r' % (ln,))
+            if name == 'go' and name not in scope['lfuncs'] and ln[1:] in ([('id', 'loop')], [('id', 'next')], [('id', 'previous')]):
+                args = [('sym', ln[1][1])]       # the commands go loop / go next / go previous (Director compiles the word as a symbol)
             out.append(('lcall' if name in scope['lfuncs'] else 'call', name, args))
         else:
             raise SpecError('statement expected: %r' % (ln,))
@@ -955,6 +957,8 @@ def pp_body(b, ind):
         k = st[0]
         if k == 'set':
             s += I + 'set %s = %s\n' % (st[1][1], pp_e(st[2]))
+        elif k == 'call' and st[1] == 'go' and len(st[2]) == 1 and st[2][0] in (('sym', 'loop'), ('sym', 'next'), ('sym', 'previous')):
+            s += I + 'go ' + st[2][0][1] + '\n'
         elif k in ('call', 'lcall'):
             s += I + st[1] + (' ' + ', '.join(pp_e(a) for a in st[2]) if st[2] else '') + '\n'
         elif k == 'exit_repeat':
@@ -1072,7 +1076,10 @@ def js_e(e):
         if op in SPRITE_OPS:
             return 'sprite(%s).%s(sprite(%s))' % (js_e(e[2]), op, js_e(e[3]))
         if op in JS_METHOD:
-            return '%s.%s(%s)' % (js_e(e[2]), JS_METHOD[op], js_e(e[3]))
+            recv = js_e(e[2])
+            if e[2][0] in ('int', 'neg', 'not'):
+                recv = '(%s)' % recv       # 1.concat is no member access; -(x).concat(s) negates the concatenation
+            return '%s.%s(%s)' % (recv, JS_METHOD[op], js_e(e[3]))
         return '(%s %s %s)' % (js_e(e[2]), JS_BIN[op], js_e(e[3]))
     if k == 'neg':
         return '-(%s)' % js_e(e[1])
@@ -1174,7 +1181,9 @@ def js_call(name, args, in_tell=False):
     if name == 'birth':
         name = '_movie.newScript'
     elif name == 'new':
-        name = '_movie.newMember' if (args and args[0][0] == 'sym') else '_movie.newScript'
+        # both spellings read back as the command 'new' (same expression tree); the translator picks newMember when
+        # the argument text begins with a symbol constructor
+        name = '_movie.newMember' if a.startswith('symbol(') else '_movie.newScript'
     elif name == 'go':
         pre = '' if in_tell else '_movie.'
         if len(args) == 1 and args[0][0] == 'sym':
@@ -1187,8 +1196,9 @@ def js_call(name, args, in_tell=False):
     return '%s(%s)' % (name, a)
 
 def cond_js(c):
+    """a condition (or the object of with) between parentheses; only an infix operation is parenthesised by itself"""
     t = js_e(c)
-    return t if t.startswith('(') else '(%s)' % t
+    return t if (c[0] == 'bin' and c[1] in JS_BIN) else '(%s)' % t
 
 def js_body(b, ind):
     I = '    ' * ind
@@ -1251,8 +1261,7 @@ def js_body(b, ind):
                         inner += js_body([x], ind + 1)
             finally:
                 JS_IN_TELL[0] = False
-            t = js_e(st[1])
-            s += I + 'with %s {\n' % (t if t.startswith('(') else '(%s)' % t) + inner + I + '}\n'
+            s += I + 'with %s {\n' % cond_js(st[1]) + inner + I + '}\n'
         elif k == 'mcall':
             s += I + 'this.%s(%s);\n' % (st[2], ', '.join(js_e(a) for a in st[3]))
         else:
